@@ -7,7 +7,7 @@ CONFIG = dict(
          "(wrong/short/long content, source failures), readers held open, existence checks, composite reads with a gated slicer; non-trivial = a successful read plus at least one of: "
          "two operations in flight, a composite read, an eviction observed; distinct = distinct input",
     modelled=["the key-location index is abstracted to 'newest valid stored location per key' (C06 proves the refinement absent reported discards; the harness uses a 9973-entry table)",
-              "sector-level device writes of the block-device allocator are not modelled here (block contents are byte arrays written per upload chunk)",
+              "sector-level device writes of the block-device allocator are not modelled in Store/Model.v (block contents are byte arrays written per upload chunk); they are modelled, proved and tied to the real allocator by the sub-check C01S (Store/SectorWriter*.v, Props/C01S.v, harness/c01s.go) whose cases are folded into this check",
               "SHA-256 as identity of content (an upload is valid iff its bytes equal the object's canonical content)",
               "schedules at the granularity of lock-protected sections / upload chunks / slicer hand-off; Go sync primitives trusted"],
 )
